@@ -2,6 +2,9 @@ package main
 
 import (
 	"crypto/sha256"
+
+	osig "github.com/ontio/ontology-crypto/signature"
+	vconfig "github.com/polynetwork/poly/consensus/vbft/config"
 	"fmt"
 	"sort"
 	"strconv"
@@ -185,6 +188,45 @@ func (w *world) checkSuccessor(r *hx.Run, op string, spec *blockSpec, before, af
 		r.Viol("C13:state-height-lags", fmt.Sprintf("after commit block height %d, state height %d", after.bh, after.sh))
 	}
 	w.checkQuorum(r, "block", spec, before.peersB, before.hh)
+	w.checkStoredQuorum(r, spec, before.peersB, before.hh)
+}
+
+// checkStoredQuorum reads the committed block back by height and counts, in ITS OWN Bookkeepers / SigData, the distinct
+// members of the set in force whose signature over the header hash really verifies (ontology-crypto, not the op tokens).
+func (w *world) checkStoredQuorum(r *hx.Run, spec *blockSpec, ledgerSet string, headerHeight uint32) {
+	if spec.height == 0 {
+		return
+	}
+	blk, err := w.main.store.GetBlockByHeight(spec.height)
+	if err != nil || blk == nil {
+		return // reported by the lookup oracle
+	}
+	set, ok := w.forceAfter(hexOf(spec.prev))
+	if !ok {
+		set = parseSet(ledgerSet)
+	}
+	in := map[string]bool{}
+	for _, k := range set {
+		in[pool[k].id] = true
+	}
+	h := blk.Hash()
+	valid := map[string]bool{}
+	for _, pk := range blk.Header.Bookkeepers {
+		id := vconfig.PubkeyID(pk)
+		if !in[id] || valid[id] {
+			continue
+		}
+		for _, raw := range blk.Header.SigData {
+			if sg, err := osig.Deserialize(raw); err == nil && osig.Verify(pk, h[:], sg) {
+				valid[id] = true
+				break
+			}
+		}
+	}
+	m := refThreshold(len(set), w.net, headerHeight)
+	if len(valid) < m {
+		r.Viol(fmt.Sprintf("C14:stored-block-below-quorum:n=%d:m=%d:got=%d", len(set), m, len(valid)), fmt.Sprintf("the block stored at height %d (submitted as %s) lists %d bookkeepers and %d signatures, of which %d distinct validators in force (%s) have a verifying signature; required %d", spec.height, spec.name, len(blk.Header.Bookkeepers), len(blk.Header.SigData), len(valid), intsToken(set), m))
+	}
 }
 
 func (w *world) checkQuorum(r *hx.Run, what string, spec *blockSpec, ledgerSet string, headerHeight uint32) {
